@@ -1585,3 +1585,22 @@ def physical_values(rng, desc, images, thorough):
     else:
         add(vi(int(base))); add(vs("x"))
     return out
+
+
+def rejection_values(desc):
+    """physical values at which a conversion can fail for ARITHMETIC reasons (round 8): the poles of every rational function of
+    COMPU-PHYS-TO-INTERNAL with a value-dependent denominator (exact roots of denominators of degree 1, integer roots of degree 2
+    inside the 8-bit window), NaN / infinities / numbers no double or 64-bit integer holds"""
+    out = []
+    for s in ((desc.get("p2i") or {}).get("scales") or []):
+        den = [frac(c) for c in (s.get("den") or []) if is_num(c)]
+        if len(den) == 2 and den[1] != 0:
+            out.append(-den[0] / den[1])
+        elif len(den) > 2:
+            out += [Fr(x) for x in range(-130, 260) if sum(c * x ** k for k, c in enumerate(den)) == 0]
+    vals = []
+    for q in out:
+        vals.append(vnum(q, desc["pty"]) if desc["pty"] in FLOAT_TYPES or q == int(q) else vf(q))
+        if q == int(q):
+            vals.append(vi(int(q)))
+    return vals
